@@ -896,7 +896,14 @@ def relation(opt, doc, base, var, ctx):
             d = same_tree()
             if d:
                 fail("title option changed the tree of a document without titles", d)
-        pairs = word_pairs({**cm, **mm})
+        # names the templates derive from a class name: literal enums get check_<snake(Class)> and <SNAKE(Class)>_VALUES
+        from openapi_python_client.utils import snake_case
+        dm = {}
+        for vcls, bcls in cm.items():
+            if vcls != bcls:
+                dm["check_" + snake_case(vcls)] = "check_" + snake_case(bcls)
+                dm[snake_case(vcls).upper() + "_VALUES"] = snake_case(bcls).upper() + "_VALUES"
+        pairs = word_pairs({**cm, **mm, **dm})
         if opt == "field_prefix":
             old = base.config.field_prefix
             pairs = [(re.compile(r"(?<![A-Za-z0-9_])" + re.escape(NEWPFX)), old),
@@ -1049,7 +1056,7 @@ def work(args):
                     budget[0] -= 1
                 fails = relation(opt, doc, b, v, ctx)
                 changed = b.files != v.files
-                case = {"doc": label, "option": opt, "context": ctxopts, "flavour": fl or ctx_fl or base_meta, "base_meta": base_meta, "wire": bool(ctx["wire"])}
+                case = {"doc": label, "option": opt, "context": ctxopts, "flavour": fl or ctx_fl or base_meta, "base_meta": base_meta, "seed": seed, "wire": bool(ctx["wire"])}
                 out["cases"].append((case, changed))
                 for note, detail, finding in fails:
                     out["fails"].append({**case, "note": note, "first_difference": detail, "diag": v.diag()[:3], "finding": finding})
@@ -1105,7 +1112,7 @@ def run(run, tier, replay=None):
         docs = []
         for v in rp["violations"]:
             if "doc_json" in v and "option" in v:
-                jobs.append((v.get("doc", "replay"), v["doc_json"], 1, [tuple(v.get("context", [])) + (v["option"],)], v.get("base_meta", "none"), 4))
+                jobs.append((v.get("doc", "replay"), v["doc_json"], v.get("seed", 1), [tuple(v.get("context", [])) + (v["option"],)], v.get("base_meta", "none"), 4))
         if all("doc_json" in v for v in rp["violations"]):
             terms, meta = [], []      # only stage C cases to replay; otherwise the (deterministic) stage B stream is re-run as a whole
     for di, (label, doc) in enumerate(docs):
